@@ -52,7 +52,15 @@ func NewFReader(fn string) FReader {
 	return FReader{r: r, b: b}
 }
 
-func (f FReader) read() (string, error) { return f.b.ReadString('\n') }
+// read returns the next line without its line break; a last line that has no
+// line break is a line like any other.
+func (f FReader) read() (string, error) {
+	line, err := f.b.ReadString('\n')
+	if err == io.EOF && line != "" {
+		return line, nil
+	}
+	return strings.TrimSuffix(line, "\n"), err
+}
 
 func (f FReader) Close() error { return f.r.Close() }
 
